@@ -233,10 +233,13 @@ impl FileSystem {
 
     /// Write to the filesystem atomically.
     /// This is done by first writing to a temporary location and then moving the file.
-    pub(crate) async fn prepare_file_write<'a>(&self, path: &'a Path) -> Result<FileWriter<'a>> {
+    pub(crate) fn prepare_file_write<'a>(&self, path: &'a Path) -> Result<FileWriter<'a>> {
         let tmp_name = format!(".tmp.{}.internal.part", self.tmp_file_counter.fetch_add(1, Ordering::SeqCst));
         let tmp_path = self.resolve_abs_path(tmp_name)?;
-        let file = File::create(&tmp_path).await?;
+        // The temporary file is created without an await point, so that it never exists without
+        // the `FileWriter` that removes it when dropped: a request future that is dropped while
+        // `tokio::fs::File::create` is still pending would leave the file behind.
+        let file = File::from_std(std::fs::File::create(&tmp_path)?);
         let writer = BufWriter::new(file);
         Ok(FileWriter {
             tmp_path,
